@@ -28,6 +28,8 @@ func runC03(p *Program, r *Report) {
 	ruleR034(p, r)
 	r.Rule("R03.5", "E3", 4, "every candidate position is examined: the inline envelope scanner advances to the tag it found, by one byte when no envelope starts there, or by the length of the envelope it replaced (a damaged or foreign value next to a run of tag bytes is still found and handled)")
 	ruleScanAdvance(p, r, "R03.5")
+	r.Rule("R03.6", "E3", 4, "success only after the comparison: in every function that compares a search hash with the decrypted content, each nil-error return is reachable only over the 'equal' edge of IsEqual or over the edge of a nil test that there is no hash to compare - no cache of earlier verdicts, flag or length test opens another way to success")
+	ruleVerifiedSuccess(p, r, "R03.6")
 }
 
 func ruleR032(p *Program, r *Report) {
@@ -399,4 +401,116 @@ func ruleR034(p *Program, r *Report) {
 	if n == 0 {
 		r.Bad("R03.4", "hmac.Processor", "in-place writes", p.Pos(tn.Pos()), "no write into the saved buffer found; the rule has lost its subject")
 	}
+}
+
+// ruleVerifiedSuccess: in every function that compares a search hash with decrypted content (a call of hmac's
+// Hash.IsEqual) and can return an error, each success return is reachable only over the 'equal' edge of such a
+// comparison or over the nil edge of a test that there is no hash to compare (a nil hash / nil stripped prefix).
+// A success that is reachable any other way (a cache of earlier verdicts, a length test, a flag) hands out content
+// whose index was never checked.
+func ruleVerifiedSuccess(p *Program, r *Report, rule string) {
+	n := 0
+	for _, fn := range p.srcFns {
+		pp := strings.TrimPrefix(fnPkgPath(fn), acraMod+"/")
+		if pp != "hmac" && pp != "cmd/acra-translator/common" {
+			continue
+		}
+		if fn.Signature.Results().Len() == 0 {
+			continue
+		}
+		errIdx := fn.Signature.Results().Len() - 1
+		if !isErrorType(fn.Signature.Results().At(errIdx).Type()) {
+			continue
+		}
+		type edge struct{ from, to *ssa.BasicBlock }
+		good := map[edge]bool{}
+		found := false
+		for _, cs := range callsIn(fn) {
+			c, ok := cs.Instr.(*ssa.Call)
+			if !ok || cs.Callee == nil || cs.Callee.Name() != "IsEqual" || cs.Callee.Pkg() == nil || !strings.HasSuffix(cs.Callee.Pkg().Path(), "/hmac") {
+				continue
+			}
+			found = true
+			for _, i := range ifsOn(c) {
+				good[edge{i.Block(), i.Block().Succs[0]}] = true
+			}
+			if refs := c.Referrers(); refs != nil {
+				for _, rf := range *refs {
+					if u, ok := rf.(*ssa.UnOp); ok && u.Op == token.NOT {
+						for _, i := range ifsOn(u) {
+							good[edge{i.Block(), i.Block().Succs[1]}] = true
+						}
+					}
+				}
+			}
+		}
+		if !found {
+			continue
+		}
+		// "nothing to compare": nil tests of a hash value or of a stripped hash prefix (never of the function's own data argument)
+		for _, b := range fn.Blocks {
+			iff, ok := b.Instrs[len(b.Instrs)-1].(*ssa.If)
+			if !ok {
+				continue
+			}
+			bo, ok := iff.Cond.(*ssa.BinOp)
+			if !ok || (bo.Op != token.EQL && bo.Op != token.NEQ) {
+				continue
+			}
+			var x ssa.Value
+			if isNilConst(bo.Y) {
+				x = bo.X
+			} else if isNilConst(bo.X) {
+				x = bo.Y
+			}
+			if x == nil {
+				continue
+			}
+			if _, isParam := x.(*ssa.Parameter); isParam {
+				continue
+			}
+			ts := x.Type().String()
+			if !(ts == "[]byte" || strings.HasSuffix(ts, "hmac.Hash")) {
+				continue
+			}
+			if bo.Op == token.EQL {
+				good[edge{b, b.Succs[0]}] = true
+			} else {
+				good[edge{b, b.Succs[1]}] = true
+			}
+		}
+		for _, ret := range returnsOf(fn) {
+			if !isNilConst(retValue(ret, errIdx)) {
+				continue
+			}
+			n++
+			// reachable from the entry without crossing a good edge?
+			seen := map[*ssa.BasicBlock]bool{}
+			var dfs func(b *ssa.BasicBlock) bool
+			dfs = func(b *ssa.BasicBlock) bool {
+				if b == ret.Block() {
+					return true
+				}
+				if seen[b] {
+					return false
+				}
+				seen[b] = true
+				for _, s := range b.Succs {
+					if !good[edge{b, s}] && dfs(s) {
+						return true
+					}
+				}
+				return false
+			}
+			bad := dfs(fn.Blocks[0])
+			r.Check(!bad, rule, fnName(fn), "success only after the hash comparison", p.Pos(ret.Pos()), "every path to this success return crosses the 'equal' edge of IsEqual or the 'no hash' edge", "this success return can be reached without the hash comparison having answered 'equal' (and without establishing that there is no hash): content whose index was never checked is handed out as valid")
+		}
+	}
+	if n == 0 {
+		r.Bad(rule, "hmac", "verifying functions", "-", "no function with a hash comparison and a success return found")
+	}
+}
+
+func init() {
+	mut("C03", "hmac processor trusts the verdict of the previous cell", "hmac/dataProcessor.go", "	if p.hashData != nil && !p.matchedHash.IsEqual(data, accessContext.GetClientID(), p.hmacStore) {", "	if p.hashData != nil && len(p.hashData) == len(p.rawData) {\n		return data, nil\n	}\n	if p.hashData != nil && !p.matchedHash.IsEqual(data, accessContext.GetClientID(), p.hmacStore) {", "R03.6", "Process")
 }
